@@ -583,3 +583,22 @@ def run(repo: Repo, rep: Report, tier: str) -> None:
     # ---------------- R23 --------------------------------------------------------------
     _borrow15(repo, rep, "C16", "C16-R11", "C15-R23", "a loop in a function body whose iterator is named like a parameter runs over its own values, as it does once the body is substituted "
               "with the parameter replaced by the argument", floor=1)
+
+    # ---------------- R24 --------------------------------------------------------------
+    rep.rule("C15-R24", "an Entity argument is the entity the body works on: the binding of the Entity parameters (`entity_refs.update(<entity params>)`) is the last thing that "
+             "happens to the entity table before the body is lowered — a re-seating of the table for a nested call after it throws the bindings away, and `e.enable = ...` in "
+             "the callee lands on a global entity that happens to be called like the parameter")
+    upd24 = [c for c in calls_in(inl20.node, "update") if norm(c.func.value) == "self.parent.entity_refs" and c.lineno < loop20.lineno]
+    seats24 = [st for st in walk_local(inl20.node) if isinstance(st, ast.Assign) and norm(st.targets[0]) == "self.parent.entity_refs" and st.lineno < loop20.lineno]
+    if not upd24:
+        raise AnalysisError("C15-R24: the binding of Entity parameters was not found ahead of the body loop")
+    pm24 = __import__("fv.core", fromlist=["parents_map"]).parents_map(inl20.node)
+    def _st24(n):
+        while not isinstance(n, ast.stmt):
+            n = pm24[n]
+        return n
+    u24 = _st24(upd24[-1])
+    later = [st for st in seats24 if g20.reaches_avoiding(u24, {id(st)}, lambda n_: False, start_inclusive=False)]
+    ok24 = g20.dominates(u24, loop20) and not later
+    rep.check(ok24, "C15-R24", "inliner: Entity parameters are bound after every re-seating of the entity table", "update(...) dominates the body loop, no re-seating after it" if ok24 else
+              (f"`{norm(later[0])[:70]}` can run after the binding: a nested call loses its Entity arguments" if later else "the binding does not reach the body loop on every path"), inl20.loc(u24))
